@@ -299,7 +299,7 @@ fn clone_cell(rep: &Report, idx: usize, cell: &Cell, seed: u64) -> Option<String
 fn compress_cells(rep: &Report, seed: u64) {
     // {absent, present(content classes)} x {none, -f} x {file input, stdin}
     let mut cells = Vec::new();
-    for present in [None, Some(0u8), Some(1), Some(2)] {
+    for present in [None, Some(0u8), Some(1), Some(2), Some(9)] {
         for force in [false, true] {
             for stdin in [false, true] {
                 cells.push((present, force, stdin));
@@ -323,8 +323,14 @@ fn compress_cells(rep: &Report, seed: u64) {
             let out = odir.join("a.cba");
             let n = run.args.len();
             run.args[n - 1] = p(&out);
+            let link_target = odir.join("link-target.cba");
             let prior: Option<Vec<u8>> = match present {
                 None => None,
+                Some(9) => {
+                    // dangling symlink as output path: O_CREAT|O_EXCL must refuse it
+                    std::os::unix::fs::symlink(&link_target, &out).map_err(|e| e.to_string())?;
+                    None
+                }
                 Some(0) => Some(Vec::new()),
                 Some(1) => {
                     let l = rng.urange(8000, 30_000);
@@ -342,7 +348,10 @@ fn compress_cells(rep: &Report, seed: u64) {
             }
             let after = listing(&odir);
             let now = std::fs::read(&out).ok();
-            let refusal = prior.is_some() && !force;
+            let refusal = (prior.is_some() || present == Some(9)) && !force;
+            if refusal && present == Some(9) && link_target.exists() {
+                return Err("compress refused, but the target of the dangling symlink given as output was created".into());
+            }
             if refusal {
                 if o.exit.ok() {
                     return Err("compress onto an existing output without --force-create exited 0".into());
@@ -380,6 +389,9 @@ fn compress_cells(rep: &Report, seed: u64) {
         match r {
             Ok(true) => {
                 rep.count(if present.is_some() && !force { "compress.refusals_observed" } else { "compress.successes_observed" }, 1);
+                if present == Some(9) {
+                    rep.count("compress.symlink_cells", 1);
+                }
                 rep.nontrivial(name);
             }
             Ok(false) => rep.inconclusive("watchdog"),
